@@ -133,6 +133,7 @@ inductive FieldsAligned (store : SizeStore) : List Field → Nat → Nat → Lis
   | nil (size al seen) : FieldsAligned store [] size al seen size al
   | cons (f fs size al seen isz ial size' al') :
       f.name ∉ seen → fieldSA store f = some (isz, ial) → size % ial = 0 →
+      size + isz * f.count < usizeLimit →
       FieldsAligned store fs (size + isz * f.count) (max al ial) (f.name :: seen) size' al' →
       FieldsAligned store (f :: fs) size al seen size' al'
 
@@ -152,16 +153,32 @@ theorem verifyFields_sound (store : SizeStore) (fs : List Field) (size al : Nat)
         split at h
         · simp at h
         · rename_i hmod
-          refine .cons f fs size al seen isz ial size' al' ?_ hsa ?_ (ih _ _ _ h)
-          · intro hm; exact hseen (List.contains_iff_mem.2 hm)
-          · simpa using hmod
+          split at h
+          · simp at h
+          · rename_i hlim
+            refine .cons f fs size al seen isz ial size' al' ?_ hsa ?_ (by omega) (ih _ _ _ h)
+            · intro hm; exact hseen (List.contains_iff_mem.2 hm)
+            · simpa using hmod
+
+/-- **(fix 32d1f86)** the running size never leaves the machine word: every intermediate and
+    the final size of an accepted struct is below `usizeLimit`, so the wrapping arithmetic of
+    an optimised build and the checked arithmetic of a debug build compute the same numbers -/
+theorem fieldsAligned_lt (store : SizeStore) (fs : List Field) (size al : Nat) (seen : List Nat)
+    (size' al' : Nat) (h : FieldsAligned store fs size al seen size' al') (h0 : size < usizeLimit) :
+    size ≤ size' ∧ size' < usizeLimit := by
+  induction h with
+  | nil => exact ⟨Nat.le_refl _, h0⟩
+  | cons f fs size al seen isz ial size' al' _ _ _ hlt _ ih =>
+    have := ih hlt
+    omega
 
 /-- **(alignment)** every struct the verifier walked satisfies the no-padding rule relative
     to the sizes of the structs verified before it (dependency order) -/
 theorem structVerifier_sound (sy : Symbols) (order : List Nat) (store store' : SizeStore)
     (h : structVerifier sy order store = .ok store') :
     ∀ n ∈ order, ∃ s pre size al, sy.structLookup n = some s ∧
-      FieldsAligned pre s.fields 0 0 [] size al ∧ al ≠ 0 ∧ size % al = 0 ∧ (n, size, al) ∈ store' := by
+      FieldsAligned pre s.fields 0 0 [] size al ∧ al ≠ 0 ∧ size % al = 0 ∧ size < usizeLimit ∧
+      (n, size, al) ∈ store' := by
   induction order generalizing store with
   | nil => intro n hn; simp at hn
   | cons m ms ih =>
@@ -192,9 +209,10 @@ theorem structVerifier_sound (sy : Symbols) (order : List Nat) (store store' : S
           intro n hn
           rcases List.mem_cons.1 hn with rfl | hn
           · simp only [Bool.or_eq_true, beq_iff_eq, bne_iff_ne, not_or] at hok
-            refine ⟨s, store, size, al, hs, verifyFields_sound _ _ _ _ _ _ _ hv, ?_, ?_, ?_⟩
+            refine ⟨s, store, size, al, hs, verifyFields_sound _ _ _ _ _ _ _ hv, ?_, ?_, ?_, ?_⟩
             · intro h0; exact hok.1 h0
             · exact Decidable.of_not_not hok.2
+            · exact (fieldsAligned_lt _ _ _ _ _ _ _ (verifyFields_sound _ _ _ _ _ _ _ hv) (by decide)).2
             · exact hmono _ _ _ h _ (by simp)
           · exact ih _ h n hn
 
@@ -526,7 +544,8 @@ theorem compile_sound (entry : Entry) (fs : FsModel) (inc : List Nat) (main : Na
     (h : compile entry fs inc main ub = .ok r) :
     (∀ i, Node.iface i ∈ r.main.nodes → ∀ m, Member.func m ∈ i.members → (m.params.map (·.name)).Nodup) ∧
     (∀ n ∈ r.structOrder, ∃ s pre size al, r.store.symbols.structLookup n = some s ∧
-      FieldsAligned pre s.fields 0 0 [] size al ∧ al ≠ 0 ∧ size % al = 0 ∧ (n, size, al) ∈ r.sizes) ∧
+      FieldsAligned pre s.fields 0 0 [] size al ∧ al ≠ 0 ∧ size % al = 0 ∧ size < usizeLimit ∧
+      (n, size, al) ∈ r.sizes) ∧
     (∀ i, MNode.iface i ∈ r.mir →
       (chainConstErrNames i).Nodup ∧ (chainFuncNames i).Nodup ∧
       ∀ l ∈ i, ∀ f ∈ l.members.filterMap MMember.funcOf, MethodRules f.params) := by
